@@ -241,7 +241,7 @@ def history_case(rng, mode, idx, maxlen):
             ops.append("p.get %d" % k)
         elif r < 0.87:
             j = rng.randint(0, 3)
-            ops.append("p.auto %d %d" % (k, j))
+            ops.append(("p.auto %d %d" if rng.random() < 0.7 else "p.plain %d %d") % (k, j))
             live.add(j); attached[j] = attached.get(k)
         elif r < 0.92:
             ops.append("p.prec %d %s" % (k, H(rng.choice(vs.pprecs))))
@@ -421,7 +421,7 @@ def shared_case(rng, mode, idx, maxlen, unsafe):
             ops.append("p.assign %d %d" % (k, j))
         elif r < 0.88:
             j = rng.randint(0, 3)
-            ops.append("p.auto %d %d" % (k, j))
+            ops.append(("p.auto %d %d" if rng.random() < 0.6 else "p.plain %d %d") % (k, j))
             live.add(j)
         elif r < 0.91:
             ops.append("p.prec %d %s" % (k, H(rng.choice(vs.pprecs))))
